@@ -121,3 +121,60 @@ Check C12_block_accepted_iff_numbers_in_range :
   = if forallb printable ops then Ok (ops, dbg) else Err.
 Print Assumptions C12_block_accepted_iff_numbers_in_range.
 
+(* empty pipeline segments, for ALL continuations w: "{|w" and "{!|w" *)
+Theorem C12_leading_pipe_is_refused :
+  forall (dbg : bool) (w : str), parse_template (123 :: (if dbg then [33] else []) ++ 124 :: w)%N = Err.
+Proof. exact leading_pipe_rejected. Qed.
+Check C12_leading_pipe_is_refused :
+  forall (dbg : bool) (w : str), parse_template (123 :: (if dbg then [33] else []) ++ 124 :: w)%N = Err.
+Print Assumptions C12_leading_pipe_is_refused.
+
+(* after ANY pipeline in ANY regex-free spelling, a "|" that is not followed by an operation:
+   "a|b|}" , "a||b...", "a|#..." -- whatever comes after *)
+Theorem C12_pipe_not_followed_by_an_operation_is_refused :
+  forall (dbg : bool) (items : list (op * str)) (T : str),
+  items <> [] -> all_spelled spells items -> run r_operation false T = None ->
+  parse_template (123 :: (if dbg then [33] else []) ++ pipe_text (texts items) ++ 124 :: T)%N = Err.
+Proof. exact dangling_pipe_rejected. Qed.
+Check C12_pipe_not_followed_by_an_operation_is_refused :
+  forall (dbg : bool) (items : list (op * str)) (T : str),
+  items <> [] -> all_spelled spells items -> run r_operation false T = None ->
+  parse_template (123 :: (if dbg then [33] else []) ++ pipe_text (texts items) ++ 124 :: T)%N = Err.
+Print Assumptions C12_pipe_not_followed_by_an_operation_is_refused.
+
+Theorem C12_trailing_pipe_is_refused :
+  forall (dbg : bool) (items : list (op * str)), items <> [] -> all_spelled spells items ->
+  parse_template (123 :: (if dbg then [33] else []) ++ pipe_text (texts items) ++ [124; 125])%N = Err.
+Proof. exact trailing_pipe_rejected. Qed.
+Check C12_trailing_pipe_is_refused :
+  forall (dbg : bool) (items : list (op * str)), items <> [] -> all_spelled spells items ->
+  parse_template (123 :: (if dbg then [33] else []) ++ pipe_text (texts items) ++ [124; 125])%N = Err.
+Print Assumptions C12_trailing_pipe_is_refused.
+
+Theorem C12_double_pipe_is_refused :
+  forall (dbg : bool) (items : list (op * str)) (w : str), items <> [] -> all_spelled spells items ->
+  parse_template (123 :: (if dbg then [33] else []) ++ pipe_text (texts items) ++ 124 :: 124 :: w)%N = Err.
+Proof. exact double_pipe_rejected. Qed.
+Check C12_double_pipe_is_refused :
+  forall (dbg : bool) (items : list (op * str)) (w : str), items <> [] -> all_spelled spells items ->
+  parse_template (123 :: (if dbg then [33] else []) ++ pipe_text (texts items) ++ 124 :: 124 :: w)%N = Err.
+Print Assumptions C12_double_pipe_is_refused.
+
+(* unbalanced braces: any text whose own braces balance, after an opening brace that is never
+   closed, is a parse error of the template constructor (both scanners) *)
+Theorem C12_unclosed_block_is_refused :
+  forall (w : str), neutral w -> template_parse (123 :: w)%N = Err.
+Proof. exact unclosed_block_rejected. Qed.
+Check C12_unclosed_block_is_refused :
+  forall (w : str), neutral w -> template_parse (123 :: w)%N = Err.
+Print Assumptions C12_unclosed_block_is_refused.
+
+Theorem C12_unclosed_spelled_block_is_refused :
+  forall (dbg : bool) (items : list (op * str)), all_spelled spells items ->
+  template_parse (123 :: (if dbg then [33] else []) ++ pipe_text (texts items))%N = Err.
+Proof. exact unclosed_spelled_block_rejected. Qed.
+Check C12_unclosed_spelled_block_is_refused :
+  forall (dbg : bool) (items : list (op * str)), all_spelled spells items ->
+  template_parse (123 :: (if dbg then [33] else []) ++ pipe_text (texts items))%N = Err.
+Print Assumptions C12_unclosed_spelled_block_is_refused.
+
